@@ -282,3 +282,41 @@ theorem meek_pattern_essential_of_T3 (hT3 : MeekT3) (D Pt : MG) (inner : List Na
     · exact Or.inr ⟨Or.inr h, hc⟩
 
 end C08
+
+namespace C08
+open MG
+
+/-- **order independence (conditional on `MeekT3`).** For a PDAG with a consistent extension the
+    arrows and the remaining undirected edges of the result do not depend on the set-iteration order. -/
+theorem meek_order_independent_of_T3 (hT3 : MeekT3) (P : MG) (inner₁ inner₂ : List Nat) (hs : Simple P)
+    (hwf : P.WF) (hext : ∃ D, ConsistentExt P D) (h1 : inner₁.Nodup) (h2 : inner₂.Nodup)
+    (c1 : ∀ v ∈ P.nodes, v ∈ inner₁) (c2 : ∀ v ∈ P.nodes, v ∈ inner₂) (a b : Nat) :
+    ((a, b) ∈ (meek P inner₁).dir ↔ (a, b) ∈ (meek P inner₂).dir) ∧
+    (HasUn (meek P inner₁) a b ↔ HasUn (meek P inner₂) a b) := by
+  have d1 := meek_complete_of_T3 hT3 P inner₁ hs hwf hext h1 c1
+  have d2 := meek_complete_of_T3 hT3 P inner₂ hs hwf hext h2 c2
+  refine ⟨(d1 a b).trans (d2 a b).symm, ?_⟩
+  have key : ∀ (i₁ i₂ : List Nat) (_ : i₁.Nodup) (_ : i₂.Nodup)
+      (e1 : ∀ a b, (a, b) ∈ (meek P i₁).dir ↔ (a, b) ∈ P.dir ∨ (HasUn P a b ∧ Compelled P a b))
+      (e2 : ∀ a b, (a, b) ∈ (meek P i₂).dir ↔ (a, b) ∈ P.dir ∨ (HasUn P a b ∧ Compelled P a b)),
+      HasUn (meek P i₁) a b → HasUn (meek P i₂) a b := by
+    intro i₁ i₂ n1 n2 e1 e2 hu
+    have st1 := meek_steps (inner := i₁) hs n1
+    have st2 := meek_steps (inner := i₂) hs n2
+    have huP : HasUn P a b := hu.imp (st1.un_anti _) (st1.un_anti _)
+    have s1 := st1.simple hs
+    rcases st2.un_cases huP with h | h | h
+    · exact h
+    · have := (e1 a b).mpr ((e2 a b).mp h)
+      have := s1 _ _ this
+      rcases hu with hu | hu
+      · exact absurd hu this.1
+      · exact absurd hu this.2
+    · have := (e1 b a).mpr ((e2 b a).mp h)
+      have := s1 _ _ this
+      rcases hu with hu | hu
+      · exact absurd hu this.2
+      · exact absurd hu this.1
+  exact ⟨key inner₁ inner₂ h1 h2 d1 d2, key inner₂ inner₁ h2 h1 d2 d1⟩
+
+end C08
